@@ -46,15 +46,21 @@ PROP = dict(
         "Lean SHA-256 validated against crypto/sha256 on every run",
     ],
     assumptions=[
-        "IDEAL SIGNATURE SCHEME (Sig.Ideal, lean/TongoProofs/Lemmas/SigIdeal.lean) - a local hypothesis of every negative "
-        "theorem: SigCorrect; SigUnforgeable (verify pk m s = true -> exists sk, pk = pub sk and s = sign sk m); SigBinds (a "
-        "signature determines its signer's public key and, on 32-byte digests, the digest). Real Ed25519 satisfies them only "
-        "up to negligible probability against bounded adversaries; the same negatives are exercised with crypto/ed25519 "
-        "(foreign keys, bit flips) on every run. The accept-all verifier does NOT satisfy them (Sig.accept_all_violates); a "
-        "toy scheme does (Sig.toy_ideal)",
+        "IDEALISED SIGNATURE SCHEME, FOR HONESTLY GENERATED KEYS ONLY (Sig.Ideal, lean/TongoProofs/Lemmas/SigIdeal.lean) - a local "
+        "hypothesis of every negative theorem: SigCorrect, and SigSound: a genuine signature (made with sk over a 32-byte digest m) "
+        "verifies under an honestly generated key pub sk' for a 32-byte digest m' only if pub sk' = pub sk and m' = m. For Ed25519 "
+        "with keys of prime order this holds up to collisions / fixed points of the internal SHA-512 modulo the group order; it is "
+        "an IDEALISATION, not a property of the real scheme. 'Verifies against no other key' therefore reads: no other HONESTLY "
+        "GENERATED key (verify_rejects_other_key has the premise Sig.Honest pub pk'). verified_was_signed alone additionally "
+        "assumes SigUnforgeable under honest keys (strong unforgeability + deterministic signer). The accept-all verifier does "
+        "NOT satisfy the hypotheses (Sig.accept_all_violates); a toy scheme does (Sig.toy_ideal)",
+        "THE LIMIT (witnessed): under keys that are NOT honestly generated nothing of the kind holds of the real scheme - Go's "
+        "ed25519.Verify, hence wallet.VerifySignature, accepts one fixed signature for EVERY body under the small-order key "
+        "01 00..00 (oracles go.m.smallkey, go.ed.smallorder reproduce this on every run); the hypotheses are consistent with it "
+        "(Sig.toy_dishonest_key_accepts_all: the toy scheme accepts everything under a dishonest key)",
         "CollisionFree SHA-256 on the representations of ALL cells of the two body trees compared (Cell.reprs): 'stops "
         "verifying when any bit changes' is verify_rejects_changed_body = signed_digest_is_body + tree-level injectivity "
-        "(Cell.hashO_tree_inj) + SigUnforgeable + SigBinds; both trees are trees of ordinary cells (Cell.wfOrd)",
+        "(Cell.hashO_tree_inj) + SigSound; both trees are trees of ordinary cells (Cell.wfOrd)",
         "a changed bit INSIDE the signature: the mutated string is accepted only if it is itself a signature by a secret "
         "key of the same public key over the (possibly changed) signed part (verified_was_signed) - in the ideal model "
         "nothing more can be said, the key holder may have signed other content",
@@ -67,11 +73,14 @@ PROP = dict(
         "actions carry addr_none / addr_std without anycast (addr_extern, addr_var, anycast answer 'unmodelled')",
         "MessageV5.RawMessages() has no case for ExtensionAction: ExtractRawMessages returns no messages for that form even "
         "when it carries send actions; modelled as the code is (decode_extension_action), not judged",
-        "outgoing internal messages are modelled for wallet.Message, SimpleTransfer (without extra currencies) and "
-        "ContractDeploy with cell arguments (TongoModel/WalletInt.lean); inside signed bodies they are arbitrary cells",
+        "outgoing internal messages are modelled for wallet.Message, SimpleTransfer (with its extra currencies: HashmapE 32 "
+        "VarUInteger32 on the shared dictionary model) and ContractDeploy with cell arguments (TongoModel/WalletInt.lean); inside "
+        "signed bodies they are arbitrary cells. The whole-message layout theorems are for messages WITHOUT extra currencies; "
+        "extra_currencies_carried is the field-level round trip (through C05 marshal_unmarshal_sound)",
     ],
     partial=[
-        "'verifies against no other key' and 'stops verifying if any bit changes' are proved CONDITIONALLY on the ideal "
+        "'verifies against no other key' is proved for other HONESTLY GENERATED keys only (false of Go for small-order keys: "
+        "oracle go.m.smallkey), and both it and 'stops verifying if any bit changes' CONDITIONALLY on the idealised "
         "signature scheme and collision-freedom (verify_rejects_other_key(_highload), verify_rejects_changed_body, "
         "built_message_rejects_changed_body, verified_was_signed): no unconditional or game-based statement",
         "too_many_refused / limit_boundary are about the message COUNT handed to RawSendV2's guard (the payload marshalers' "
@@ -81,13 +90,14 @@ PROP = dict(
                "that fit a cell (highload: the dictionary with keys 0..n-1 always builds, n <= 254); the digest signed and the digest verified are the representation hash of exactly the cell "
                "holding ids, expiry, seqno, [op] and the messages; the wallet's own key verifies (signature correctness "
                "assumed); decoding the built external message returns the same ids, seqno, expiry and messages with modes in "
-               "order (highload: through the C05 dictionary theorems on the shared Hashmap model); UNDER the ideal signature scheme Sig.Ideal and "
+               "order (highload: through the C05 dictionary theorems on the shared Hashmap model); UNDER the idealised scheme Sig.Ideal (correct + sound, honestly generated keys only) and "
                "CollisionFree SHA-256 on the cells of the two trees: the built message of every version (signature in front, "
-               "or in the last 512 bits for v5; highload included) is rejected for every other 32-byte key "
+               "or in the last 512 bits for v5; highload included) is rejected for every other HONESTLY GENERATED 32-byte key "
                "(verify_rejects_other_key, _highload) and the signature re-attached to ANY different tree of ordinary cells - a bit, a "
                "ref or any cell at any depth changed - is rejected under the wallet's own key (verify_rejects_changed_body); "
-               "whatever verifies was signed by a secret key of that public key (verified_was_signed); the accept-all verifier "
-               "is excluded by the hypotheses, a toy ideal scheme instantiates them; a requested message with code and data is "
+               "under an honest key whatever verifies was signed by a secret key of it (verified_was_signed, needs SigUnforgeable); the "
+               "accept-all verifier is excluded by the hypotheses, a toy scheme instantiates them while accepting everything under a "
+               "dishonest key - as Go's Ed25519 does under the small-order key 01 00..00 (oracle go.m.smallkey); a requested message with code and data is "
                "marshalled without overflow and read back with exactly that code and data, both present, no library "
                "(carried_init_is_requested), no init without both (no_init_without_code_and_data), a ContractDeploy is addressed to the hash of the "
                "state init it carries (deploy_address_is_carried_init_hash); the batch guard accepts every size up to and including the version's maximum and "
@@ -96,8 +106,10 @@ PROP = dict(
                "defects found by the check (empty highload payload undecodable, v5 beta unverifiable) are repaired in the "
                "code; their negations on the old model are theorems. The model is tied to the Go code by bit-exact "
                "correspondence on every run, including all 7 versions with up to 255 messages and real Ed25519.",
-    level_note="trusted: Lean kernel, harness, validated SHA-256; IDEALISATIONS (hypotheses of the negative theorems): ideal "
-               "signature scheme (correct, unforgeable, binding), SHA-256 collision-freedom",
+    level="proof",
+    level_note="trusted: Lean kernel, harness, validated SHA-256; IDEALISATIONS (hypotheses of the negative theorems, honest "
+               "keys only): signature soundness (SigSound) / unforgeability, SHA-256 collision-freedom; the negative clauses are "
+               "conditional theorems, see partial",
     technique="functional model with explicit builder/reader monads, layout lemmas, append/bit-list injectivity, "
               "differential correspondence with real crypto, direct property oracles",
 )
